@@ -758,47 +758,58 @@ let init c k =
     s_woken = false; r_pend = None; r_woken = false; st_pend = None;
     st_woken = false; rdisc = false; s_ever = false; r_ever = false; ev = [] }
 
-(** val emit : event -> st -> st **)
+(** val opt_is : 'a1 option -> bool **)
 
-let emit e s =
-  set_ev (app s.ev (e :: [])) s
+let opt_is = function
+| Some _ -> true
+| None -> false
 
-(** val wake_r : st -> st **)
+(** val is_nil : 'a1 list -> bool **)
 
-let wake_r s =
-  match s.cw with
-  | Some w ->
-    let s1 =
-      match s.st_pend with
-      | Some w' -> if Nat.eqb w' w then set_st_woken true s else s
-      | None -> s
-    in
-    emit (EWake w) (set_r_woken true (set_cw None s1))
-  | None -> s
+let is_nil = function
+| [] -> true
+| _ :: _ -> false
 
-(** val wake_s : st -> st **)
+(** val wake_ev : nat option -> event list **)
 
-let wake_s s =
-  match s.pw with
-  | Some w -> emit (EWake w) (set_s_woken true (set_pw None s))
-  | None -> s
+let wake_ev = function
+| Some w -> (EWake w) :: []
+| None -> []
+
+(** val wake_r_if : bool -> st -> st **)
+
+let wake_r_if b s =
+  set_cw (if b then None else s.cw)
+    (set_ev (app s.ev (if b then wake_ev s.cw else []))
+      (set_r_woken ((||) s.r_woken ((&&) b (opt_is s.cw)))
+        (set_st_woken
+          ((||) s.st_woken
+            ((&&) b
+              (match s.cw with
+               | Some w ->
+                 (match s.st_pend with
+                  | Some w' -> Nat.eqb w' w
+                  | None -> false)
+               | None -> false))) s)))
+
+(** val wake_s_if : bool -> st -> st **)
+
+let wake_s_if b s =
+  set_pw (if b then None else s.pw)
+    (set_ev (app s.ev (if b then wake_ev s.pw else []))
+      (set_s_woken ((||) s.s_woken ((&&) b (opt_is s.pw))) s))
 
 (** val push : nat list -> st -> st **)
 
 let push ids s =
-  match ids with
-  | [] -> s
-  | _ :: _ ->
-    wake_r (set_accepted (app s.accepted ids) (set_q (app s.q ids) s))
+  wake_r_if (negb (is_nil ids))
+    (set_accepted (app s.accepted ids) (set_q (app s.q ids) s))
 
 (** val pop : nat -> st -> st **)
 
 let pop k s =
-  match k with
-  | O -> s
-  | S _ ->
-    wake_s
-      (set_q (skipn k s.q) (set_received (app s.received (firstn k s.q)) s))
+  wake_s_if (negb (Nat.eqb k O))
+    (set_q (skipn k s.q) (set_received (app s.received (firstn k s.q)) s))
 
 (** val give_back : nat list -> st -> st **)
 
@@ -816,54 +827,70 @@ let destroy ids s =
 let free s =
   sub s.cap (length s.q)
 
+(** val close_int_s_if : bool -> st -> st **)
+
+let close_int_s_if b s =
+  wake_r_if ((&&) b (Z.eqb s.scount (Zpos XH)))
+    (set_scount (if b then Z.sub s.scount (Zpos XH) else s.scount)
+      (set_pdrop ((||) s.pdrop b) s))
+
+(** val close_int_r_if : bool -> st -> st **)
+
+let close_int_r_if b s =
+  wake_s_if ((&&) b (Z.eqb s.rcount (Zpos XH)))
+    (set_rcount (if b then Z.sub s.rcount (Zpos XH) else s.rcount)
+      (set_cdrop ((||) s.cdrop b) s))
+
 (** val close_int_s : st -> st **)
 
-let close_int_s s =
-  let old = s.scount in
-  let s1 = set_scount (Z.sub old (Zpos XH)) (set_pdrop true s) in
-  if Z.eqb old (Zpos XH) then wake_r s1 else s1
+let close_int_s =
+  close_int_s_if true
 
 (** val close_int_r : st -> st **)
 
-let close_int_r s =
-  let old = s.rcount in
-  let s1 = set_rcount (Z.sub old (Zpos XH)) (set_cdrop true s) in
-  if Z.eqb old (Zpos XH) then wake_s s1 else s1
+let close_int_r =
+  close_int_r_if true
+
+(** val both_gone : st -> bool **)
+
+let both_gone s =
+  match s.sh with
+  | HGone -> (match s.rh with
+              | HGone -> true
+              | HLive (_, _) -> false)
+  | HLive (_, _) -> false
 
 (** val shared_drop_if : st -> st **)
 
 let shared_drop_if s =
-  match s.sh with
-  | HGone ->
-    (match s.rh with
-     | HGone ->
-       set_q []
-         (set_ev (app s.ev (map (fun x -> EDrop x) s.q))
-           (set_drained (app s.drained s.q) s))
-     | HLive (_, _) -> s)
-  | HLive (_, _) -> s
+  set_q (if both_gone s then [] else s.q)
+    (set_ev
+      (app s.ev (if both_gone s then map (fun x -> EDrop x) s.q else []))
+      (set_drained (app s.drained (if both_gone s then s.q else [])) s))
 
 (** val clear_stream_pend : st -> st **)
 
 let clear_stream_pend s =
-  set_st_pend None
+  set_r_pend
     (match s.r_pend with
      | Some p ->
-       let (o, _) = p in
+       let (o, n0) = p in
        (match o with
-        | OFut -> s
-        | OStream -> set_r_pend None s)
-     | None -> s)
+        | OFut -> Some (OFut, n0)
+        | OStream -> None)
+     | None -> None) (set_st_pend None s)
 
 (** val clear_fut_pend : st -> st **)
 
 let clear_fut_pend s =
-  match s.r_pend with
-  | Some p ->
-    let (o, _) = p in (match o with
-                       | OFut -> set_r_pend None s
-                       | OStream -> s)
-  | None -> s
+  set_r_pend
+    (match s.r_pend with
+     | Some p ->
+       let (o, n0) = p in
+       (match o with
+        | OFut -> None
+        | OStream -> Some (OStream, n0))
+     | None -> None) s
 
 (** val note_disc : st -> st **)
 
@@ -1006,8 +1033,7 @@ let do_conv_s cf s =
 
 let do_drop_s s =
   gate_s s None (fun _ c ->
-    let s1 = if c then s else close_int_s s in
-    ((shared_drop_if (set_sh HGone s1)), ROk))
+    ((shared_drop_if (set_sh HGone (close_int_s_if (negb c) s))), ROk))
 
 (** val do_mk_s : sfut -> nat -> st -> st * res **)
 
@@ -1024,7 +1050,7 @@ let do_poll_s w s =
     (match s.sf with
      | Some p ->
        let (f, reg) = p in
-       let unreg = fun s0 -> if reg then set_pw None s0 else s0 in
+       let unreg = fun s0 -> set_pw (if reg then None else s0.pw) s0 in
        let done0 = fun s0 -> set_s_pend None (set_sf None s0) in
        let pending = fun f' s0 ->
          ((set_s_woken false
@@ -1069,7 +1095,8 @@ let do_dropfut_s s =
   match s.sf with
   | Some p ->
     let (f, reg) = p in
-    let s1 = set_s_pend None (set_sf None (if reg then set_pw None s else s))
+    let s1 =
+      set_s_pend None (set_sf None (set_pw (if reg then None else s.pw) s))
     in
     (match f with
      | SFSend v -> ((destroy (v :: []) s1), ROk)
@@ -1130,7 +1157,7 @@ let do_obs_r s =
 (** val stream_unreg : st -> st **)
 
 let stream_unreg s =
-  if s.rreg then set_rreg false (set_cw None s) else s
+  set_rreg false (set_cw (if s.rreg then None else s.cw) s)
 
 (** val do_conv_r : cfg -> st -> st * res **)
 
@@ -1152,8 +1179,7 @@ let do_drop_r s =
       | KSync -> s
       | KAsync -> clear_stream_pend (stream_unreg s)
     in
-    let s2 = if c then s1 else close_int_r s1 in
-    ((shared_drop_if (set_rh HGone s2)), ROk))
+    ((shared_drop_if (set_rh HGone (close_int_r_if (negb c) s1))), ROk))
 
 (** val do_mk_r : rfut -> st -> st * res **)
 
@@ -1169,7 +1195,7 @@ let do_poll_r w s =
     (match s.rf with
      | Some p ->
        let (f, reg) = p in
-       let unreg = fun s0 -> if reg then set_cw None s0 else s0 in
+       let unreg = fun s0 -> set_cw (if reg then None else s0.cw) s0 in
        let done0 = fun s0 -> clear_fut_pend (set_rf None s0) in
        let pending = fun s0 ->
          ((set_r_woken false
@@ -1210,7 +1236,8 @@ let do_dropfut_r s =
   match s.rf with
   | Some p ->
     let (_, reg) = p in
-    ((clear_fut_pend (set_rf None (if reg then set_cw None s else s))), ROk)
+    ((clear_fut_pend (set_rf None (set_cw (if reg then None else s.cw) s))),
+    ROk)
   | None -> (s, RNoFut)
 
 (** val do_stream_next : nat -> st -> st * res **)
